@@ -137,6 +137,30 @@ CHECKS = {
         "fingerprint merge audit.",
    technique="explicit-state BFS of the implementation with automaton + registry-diff oracles (replay + fork snapshots)",
    ref="3/C07"),
+ "C04": dict(cat="model_checking",
+   text="Real ball devices, playfield, ball controller and game mode on the plain virtual platform plus a physical world the "
+        "harness owns (mc/world.py: balls at rest in a device / loose / in transit; switches derived from ball positions; coil "
+        "pulses observed at the platform driver and answered by the exploration). Deviation-bounded stateless search: scripts "
+        "of game actions taken at rest with default world answers; deviations (cost 1 each) are other outcomes of a coil pulse "
+        "(falls back, does not move, arrives after the eject timeout, reaches the playfield without a switch hit), actions "
+        "taken while devices are busy (drain, playfield switch, start, add ball, lock shot, plunge) and the other resolution "
+        "of a simultaneous-completion race in Util.first. All executions with <=2 (quick) / <=3 (thorough) deviations run to "
+        "rest. Oracles: counts within [0, capacity] always; no pulse towards a device without room; at rest device counts = "
+        "physical counts, playfield count = loose balls, sum = num_balls_known = balls in the machine.",
+   note="Trusted: mc/world.py, the deterministic Util.first replacement in props/c04.py. Bounds: the topologies and scripts "
+        "listed in the evidence, transit menu, ideal switches, ball search off, balls never vanish; executions in which a ball "
+        "physically reaches a full device are not judged at rest (switches cannot tell).",
+   technique="deviation-bounded stateless exploration of the implementation against a harness-owned physical world",
+   ref="3/C04"),
+ "C05": dict(cat="model_checking",
+   text="Same harness and executions as C04 (props/c04.py), the progress oracles: every execution comes to rest (no loop timer, "
+        "no ball in transit, no unanswered pulse) within 400 default steps; at rest every device is idle or has reported itself "
+        "broken, the playfield physically holds at least the balls the game has in play, no task died with an exception and "
+        "the loop never livelocks. Bounded liveness: deviation bound 2 (quick) / 3 (thorough).",
+   note="Liveness is decided as bounded liveness: each explored execution is run to rest with default answers. Same trusted "
+        "base and bounds as C04.",
+   technique="deviation-bounded stateless exploration of the implementation, bounded liveness at rest",
+   ref="3/C05"),
  "C06": dict(cat="model_checking",
    text="Explicit-state BFS over start/add-player requests, drains, balls-in-play additions, extra-ball awards, end_ball / "
         "end_game events, tilt and slam tilt, with environment-held waiting handlers on each of the seven lifecycle queue "
